@@ -1,5 +1,5 @@
 #!/bin/bash
 # usage: tools/seedall.sh C07 C14 ...   runs seedtest for every delivered change of the given properties
-for p in "$@"; do for n in 1 2 3; do [ -d /tmp/seed-$p-out/$n ] && python3 /verif/tools/seedtest.py $p /tmp/seed-$p-out/$n 2>&1 | tail -1 > /tmp/seed-$p-out/$n.result.json && python3 -c "
+for p in "$@"; do for n in 1 2 3; do [ -d /tmp/${SEEDPFX:-seed}-$p-out/$n ] && python3 /verif/tools/seedtest.py $p /tmp/${SEEDPFX:-seed}-$p-out/$n 2>&1 | tail -1 > /tmp/${SEEDPFX:-seed}-$p-out/$n.result.json && python3 -c "
 import sys,json
-r=json.load(open('/tmp/seed-$p-out/$n.result.json')); print(r['property'], r['dir'][-1], 'dir',r.get('demo_dir'),'noPatchPass',r.get('demo_passes_without_patch'),'patchFail',r.get('demo_fails_with_patch'),'tests',r.get('existing_tests_pass'),'CAUGHT' if r.get('caught') else 'MISSED', r.get('check_exit'), r.get('sigs'))"; done; done
+r=json.load(open('/tmp/${SEEDPFX:-seed}-$p-out/$n.result.json')); print(r['property'], r['dir'][-1], 'dir',r.get('demo_dir'),'noPatchPass',r.get('demo_passes_without_patch'),'patchFail',r.get('demo_fails_with_patch'),'tests',r.get('existing_tests_pass'),'CAUGHT' if r.get('caught') else 'MISSED', r.get('check_exit'), r.get('sigs'))"; done; done
